@@ -6,9 +6,11 @@ so the recurring clause shapes are expanded here.  The engine only ever reads co
 
 Conventions
   vf_n, vf_m   ghost lengths of the first / second range          vf_k, vf_j   ghost indices ("for all k" by symbolic k)
+  vf_ov        ghost selector: which of the overlap / aliasing configurations the standard permits is set up by REQUIRES
+  vf_sel       ghost selector: 1 = also check the clause that a known finding violates (see KNOWN), 0 = all other clauses
   vf_p, vf_q   ghost partition points (preconditions of the binary searches)
   P3(x)        the driver's predicate  x % 3 == 0   (written out again here, independently of the lowered functor)
-  OP1(x)       x*2+1 mod 2^32,  OP2(x,y) x*3+y mod 2^32
+  OP1(x)       (x & 0x3fffffff)*2+1,  OP2(x,y) (x & 0xfffff)*3 + (y & 0xfffff)   (wrap-free on all of int)
 """
 import os, re, sys
 
@@ -17,13 +19,14 @@ I = "sizeof(int)"
 
 
 def P3(x): return "((%s) %% 3 == 0)" % x
-def OP1(x): return "((int)((unsigned)(%s) * 2u + 1u))" % x
-def OP2(x, y): return "((int)((unsigned)(%s) * 3u + (unsigned)(%s)))" % (x, y)
+def OP1(x): return "(((%s) & 0x3fffffff) * 2 + 1)" % x
+def OP2(x, y): return "(((%s) & 0xfffff) * 3 + ((%s) & 0xfffff))" % (x, y)
 
 
 def rng(f="first", l="last", n="vf_n"):
     """requires: [f,l) is a fresh array of n ints"""
-    return "%s <= %s && FRESH(%s, %s * %s) && %s == %s + %s" % (n, NMAX, f, n, I, l, f, n)
+    g = "vf_k <= vf_n && vf_j <= vf_n && " if n == "vf_n" else ""
+    return g + "%s <= %s && FRESH(%s, %s * %s) && %s == %s + %s" % (n, NMAX, f, n, I, l, f, n)
 
 
 def buf(p, n="vf_n"):
@@ -155,7 +158,7 @@ counter("etl::count_if<int *, vf::pred3>", "etl_count_if", P3)
 # writing algorithms: instantiated with the index iterator vf::idx<T> {T* base; long i;} (see driver.cpp for the reason)
 def xrng(f="first", l="last", n="vf_n", off="0"):
     """requires: [f,l) = elements off .. off+n of a fresh array of off+n ints"""
-    return "vf_k <= %s && %s <= %s && %s <= %s && FRESH(%s.base, (%s + %s) * %s) && %s.i == (long)(%s) && %s.base == %s.base && %s.i == (long)(%s + %s)" % (
+    return "vf_k <= %s && %s <= %s && %s <= %s && FRESH(%s.base, (%s + %s) * %s) && %s.i == (long)(%s) && __CPROVER_pointer_equals(%s.base, %s.base) && %s.i == (long)(%s + %s)" % (
         n, n, NMAX, off, NMAX, f, off, n, I, f, off, l, f, l, off, n)
 
 
@@ -192,8 +195,475 @@ fn("etl::copy<vf::idx<int>, vf::idx<int>>", "etl_copy", [R(xrng(off="vf_m")),
      INV("(%s && (long)vf_k < %s) ==> destination.base[vf_k] == ENTRY(first.base[vf_m + vf_k])" % (K, SRC)),
      INV("(%s && (long)vf_k >= %s) ==> first.base[vf_m + vf_k] == ENTRY(first.base[vf_m + vf_k])" % (K, SRC)),
      XDEC]])
+
+# move: as copy
+fn("etl::move<vf::idx<int>, vf::idx<int>>", "etl_move", [R(xrng(off="vf_m")),
+   R("vf_ov ? (__CPROVER_pointer_equals(destination.base, first.base) && destination.i == 0 && vf_m >= 1) : (%s)" % xbuf("destination")),
+   E(xat("RET", "OLD(destination.base)", "vf_n")),
+   E("%s ==> OLD(destination.base)[vf_k] == OLD(first.base[vf_m + vf_k])" % K),
+   A(xupto("destination.base"))],
+   [[A("first.i, destination.i, " + xupto("destination.base")),
+     INV("(long)vf_m <= first.i && first.i <= last.i && destination.i == %s" % SRC),
+     INV("(%s && (long)vf_k < %s) ==> destination.base[vf_k] == ENTRY(first.base[vf_m + vf_k])" % (K, SRC)),
+     INV("(%s && (long)vf_k >= %s) ==> first.base[vf_m + vf_k] == ENTRY(first.base[vf_m + vf_k])" % (K, SRC)),
+     XDEC]])
+
+
+# copy_backward / move_backward: source = elements 0 .. vf_n of A; destination END = element vf_m+vf_n of a separate buffer, or
+# of A itself (vf_m >= 1: the destination lies behind the source, the overlap direction [alg.copy]/[alg.move] permit)
+def backward(name, alias, dl):
+    fn(name, alias, [
+       R("vf_k <= vf_n && vf_n <= %s && vf_m <= %s && FRESH(first.base, (vf_m + vf_n) * %s) && first.i == 0 && __CPROVER_pointer_equals(last.base, first.base) && last.i == (long)vf_n" % (NMAX, NMAX, I)),
+       R("vf_ov ? (__CPROVER_pointer_equals(%s.base, first.base) && vf_m >= 1) : FRESH(%s.base, (vf_m + vf_n) * %s)" % (dl, dl, I)),
+       R("%s.i == (long)(vf_m + vf_n)" % dl),
+       E(xat("RET", "OLD(%s.base)" % dl, "vf_m")),
+       E("%s ==> OLD(%s.base)[vf_m + vf_k] == OLD(first.base[vf_k])" % (K, dl)),
+       A(xupto("%s.base + vf_m" % dl))],
+       [[A("last.i, %s.i, %s" % (dl, xupto("%s.base + vf_m" % dl))),
+         INV("0 <= last.i && last.i <= (long)vf_n && first.i == 0 && %s.i == (long)vf_m + last.i" % dl),
+         INV("(%s && (long)vf_k >= last.i) ==> %s.base[vf_m + vf_k] == ENTRY(first.base[vf_k])" % (K, dl)),
+         INV("(%s && (long)vf_k < last.i) ==> first.base[vf_k] == ENTRY(first.base[vf_k])" % K),
+         DEC("last.i")]])
+
+
+backward("etl::copy_backward<vf::idx<int>, vf::idx<int>>", "etl_copy_backward", "dLast")
+backward("etl::move_backward<vf::idx<int>, vf::idx<int>>", "etl_move_backward", "destination")
+
+# copy_n: as copy without overlap; count == vf_n, or count <= 0 and nothing is copied
+fn("etl::copy_n<vf::idx<int>, long, vf::idx<int>>", "etl_copy_n", [
+   R("vf_k <= vf_n && vf_n <= %s && FRESH(first.base, vf_n * %s) && first.i == 0 && %s" % (NMAX, I, xbuf("result"))),
+   R("count > 0 ? count == (long)vf_n : vf_n == 0"),
+   E("vf_sel ==> (%s)" % xat("RET", "OLD(result.base)", "vf_n")),
+   E("%s ==> OLD(result.base)[vf_k] == OLD(first.base)[vf_k]" % K),
+   ("KNOWN", "C06_copy_n_return :: count > 0 && vf_sel"),
+   A(xupto("result.base"))],
+   [[A("i, first.i, result.i, " + xupto("result.base")),
+     INV("1 <= i && i <= count && first.i == i - 1 && result.i == i - 1"),
+     INV("(%s && (long)vf_k < i) ==> result.base[vf_k] == first.base[vf_k]" % K),
+     DEC("count - i")]])
+
+# fill / fill_n
+fn("etl::fill<vf::idx<int>, int>", "etl_fill", [R("FRESH(value, sizeof(int))"), R(xrng()),
+   E("%s ==> OLD(first.base)[vf_k] == *value" % K),
+   A(xupto("first.base"))],
+   [[A("first.i, " + xupto("first.base")), INV("0 <= first.i && first.i <= last.i"),
+     INV("%s ==> first.base[vf_k] == *value" % XK_B), XDEC]])
+fn("etl::fill_n<vf::idx<int>, long, int>", "etl_fill_n", [R("FRESH(value, sizeof(int))"),
+   R("vf_k <= vf_n && vf_n <= %s && FRESH(first.base, vf_n * %s) && first.i == 0" % (NMAX, I)),
+   R("count > 0 ? count == (long)vf_n : vf_n == 0"),
+   E(xat("RET", "OLD(first.base)", "vf_n")),
+   E("%s ==> OLD(first.base)[vf_k] == *value" % K),
+   A(xupto("first.base"))],
+   [[A("i, first.i, " + xupto("first.base")), INV("0 <= i && i <= (long)vf_n && first.i == i"),
+     INV("%s ==> first.base[vf_k] == *value" % XK_B), DEC("count - i")]])
+
+# generate / generate_n with the counting generator gen1 {next}: element k == start + k (mod 2^32)
+fn("etl::generate<vf::idx<unsigned int>, vf::gen1>", "etl_generate", [R(xrng()),
+   E("%s ==> OLD(first.base)[vf_k] == OLD(g.next) + (unsigned)vf_k" % K),
+   A(xupto("first.base"))],
+   [[A("first.i, g.next, " + xupto("first.base")), INV("0 <= first.i && first.i <= last.i && g.next == ENTRY(g.next) + (unsigned)first.i"),
+     INV("%s ==> first.base[vf_k] == ENTRY(g.next) + (unsigned)vf_k" % XK_B), XDEC]])
+fn("etl::generate_n<vf::idx<unsigned int>, long, vf::gen1>", "etl_generate_n", [
+   R("vf_k <= vf_n && vf_n <= %s && FRESH(first.base, vf_n * %s) && first.i == 0" % (NMAX, I)),
+   R("count > 0 ? count == (long)vf_n : vf_n == 0"),
+   E(xat("RET", "OLD(first.base)", "vf_n")),
+   E("%s ==> OLD(first.base)[vf_k] == OLD(g.next) + (unsigned)vf_k" % K),
+   A(xupto("first.base"))],
+   [[A("first.i, count, g.next, " + xupto("first.base")),
+     INV("0 <= first.i && first.i <= (long)vf_n && count <= (long)vf_n && first.i + (count > 0 ? count : 0) == (long)vf_n && g.next == ENTRY(g.next) + (unsigned)first.i"),
+     INV("%s ==> first.base[vf_k] == ENTRY(g.next) + (unsigned)vf_k" % XK_B), DEC("count")]])
+
+# transform (unary): the result may be equal to first ([alg.transform]); (binary): may be equal to first1 or first2
+fn("etl::transform<vf::idx<int>, vf::idx<int>, vf::op1>", "etl_transform1", [R(xrng()),
+   R("vf_ov ? (__CPROVER_pointer_equals(dest.base, first.base) && dest.i == 0) : (%s)" % xbuf("dest")),
+   E(xat("RET", "OLD(dest.base)", "vf_n")),
+   E("%s ==> OLD(dest.base)[vf_k] == %s" % (K, OP1("OLD(first.base[vf_k])"))),
+   A(xupto("dest.base"))],
+   [[A("first.i, dest.i, " + xupto("dest.base")), INV("0 <= first.i && first.i <= last.i && dest.i == first.i"),
+     INV("%s ==> dest.base[vf_k] == %s" % (XK_B, OP1("ENTRY(first.base[vf_k])"))),
+     INV("%s ==> first.base[vf_k] == ENTRY(first.base[vf_k])" % XK_A), XDEC]])
+XK1_B = "(vf_k < vf_n && (long)vf_k < first1.i)"
+XK1_A = "(vf_k < vf_n && (long)vf_k >= first1.i)"
+fn("etl::transform<vf::idx<int>, vf::idx<int>, vf::idx<int>, vf::op2>", "etl_transform2", [R(xrng("first1", "last1")), R(xbuf("first2")),
+   R("vf_ov == 1 ? (__CPROVER_pointer_equals(dest.base, first1.base) && dest.i == 0) : vf_ov == 2 ? (__CPROVER_pointer_equals(dest.base, first2.base) && dest.i == 0) : (%s)" % xbuf("dest")),
+   E(xat("RET", "OLD(dest.base)", "vf_n")),
+   E("%s ==> OLD(dest.base)[vf_k] == %s" % (K, OP2("OLD(first1.base[vf_k])", "OLD(first2.base[vf_k])"))),
+   A(xupto("dest.base"))],
+   [[A("first1.i, first2.i, dest.i, " + xupto("dest.base")), INV("0 <= first1.i && first1.i <= last1.i && dest.i == first1.i && first2.i == first1.i"),
+     INV("%s ==> dest.base[vf_k] == %s" % (XK1_B, OP2("ENTRY(first1.base[vf_k])", "ENTRY(first2.base[vf_k])"))),
+     INV("%s ==> (first1.base[vf_k] == ENTRY(first1.base[vf_k]) && first2.base[vf_k] == ENTRY(first2.base[vf_k]))" % XK1_A),
+     DEC("last1.i - first1.i")]])
+
+# replace_if / replace (replace forwards to replace_if<lambda>: its loop carries the contract, the call is inlined)
+fn("etl::replace_if<vf::idx<int>, vf::pred3, int>", "etl_replace_if", [R("FRESH(newValue, sizeof(int))"), R(xrng()),
+   E("%s ==> OLD(first.base)[vf_k] == (%s ? *newValue : OLD(first.base[vf_k]))" % (K, P3("OLD(first.base[vf_k])"))),
+   A(xupto("first.base"))],
+   [[A("first.i, " + xupto("first.base")), INV("0 <= first.i && first.i <= last.i"),
+     INV("%s ==> first.base[vf_k] == (%s ? *newValue : ENTRY(first.base[vf_k]))" % (XK_B, P3("ENTRY(first.base[vf_k])"))),
+     INV("%s ==> first.base[vf_k] == ENTRY(first.base[vf_k])" % XK_A), XDEC]])
+fn("etl::replace<vf::idx<int>, int>", "etl_replace", [R("FRESH(oldValue, sizeof(int)) && FRESH(newValue, sizeof(int))"), R(xrng()),
+   E("%s ==> OLD(first.base)[vf_k] == (OLD(first.base[vf_k]) == *oldValue ? *newValue : OLD(first.base[vf_k]))" % K),
+   A(xupto("first.base"))])
+fn("_ZN3etl10replace_ifIN2vf3idxIiEEZNS_7replaceIS3_iEEvT_S5_RKT0_S8_EUlRKS5_E_iEEvS5_S5_S6_RKT1_", "etl_replace_if_lambda", [],
+   [[A("first.i, " + xupto("first.base")), INV("0 <= first.i && first.i <= last.i"),
+     INV("%s ==> first.base[vf_k] == (ENTRY(first.base[vf_k]) == *p.cap0 ? *newValue : ENTRY(first.base[vf_k]))" % XK_B),
+     INV("%s ==> first.base[vf_k] == ENTRY(first.base[vf_k])" % XK_A), XDEC]])
+
+# swap_ranges: the two ranges do not overlap
+fn("etl::swap_ranges<vf::idx<int>, vf::idx<int>>", "etl_swap_ranges", [R(xrng("first1", "last1")), R(xbuf("first2")),
+   E(xat("RET", "OLD(first2.base)", "vf_n")),
+   E("%s ==> (OLD(first1.base)[vf_k] == OLD(first2.base[vf_k]) && OLD(first2.base)[vf_k] == OLD(first1.base[vf_k]))" % K),
+   A(xupto("first1.base") + ", " + xupto("first2.base"))],
+   [[A("first1.i, first2.i, %s, %s" % (xupto("first1.base"), xupto("first2.base"))),
+     INV("0 <= first1.i && first1.i <= last1.i && first2.i == first1.i"),
+     INV("%s ==> (first1.base[vf_k] == ENTRY(first2.base[vf_k]) && first2.base[vf_k] == ENTRY(first1.base[vf_k]))" % XK1_B),
+     INV("%s ==> (first1.base[vf_k] == ENTRY(first1.base[vf_k]) && first2.base[vf_k] == ENTRY(first2.base[vf_k]))" % XK1_A),
+     DEC("last1.i - first1.i")]])
+
+# reverse: element k becomes old element n-1-k; ghost vf_j == vf_n-1-vf_k is the mirror index
+MIR = "(vf_k < vf_n ==> vf_j == vf_n - 1 - vf_k) && vf_j <= vf_n"
+fn("etl::reverse<vf::idx<int>>", "etl_reverse", [R(xrng()), R(MIR),
+   E("%s ==> OLD(first.base)[vf_k] == OLD(first.base[vf_j])" % K),
+   A(xupto("first.base"))],
+   [[A("first.i, last.i, " + xupto("first.base")),
+     INV("0 <= first.i && first.i <= (long)vf_n && -1 <= last.i && last.i <= (long)vf_n && first.i <= last.i + 1 && first.i + last.i == (long)vf_n - 1"),
+     INV("(%s && ((long)vf_k < first.i || (long)vf_k > last.i)) ==> first.base[vf_k] == ENTRY(first.base[vf_j])" % K),
+     INV("(%s && (long)vf_k >= first.i && (long)vf_k <= last.i) ==> (first.base[vf_k] == ENTRY(first.base[vf_k]) && first.base[vf_j] == ENTRY(first.base[vf_j]))" % K),
+     DEC("last.i - first.i + 1")]])
+fn("etl::reverse_copy<vf::idx<int>, vf::idx<int>>", "etl_reverse_copy", [R(xrng()), R(MIR), R(xbuf("destination")),
+   E(xat("RET", "OLD(destination.base)", "vf_n")),
+   E("%s ==> OLD(destination.base)[vf_k] == OLD(first.base)[vf_j]" % K),
+   A(xupto("destination.base"))],
+   [[A("last.i, destination.i, " + xupto("destination.base")),
+     INV("0 <= last.i && last.i <= (long)vf_n && first.i == 0 && destination.i == (long)vf_n - last.i"),
+     INV("(%s && (long)vf_k < destination.i) ==> destination.base[vf_k] == first.base[vf_j]" % K),
+     DEC("last.i")]])
+
+# iota: element k == value + k (mod 2^32)
+fn("etl::iota<vf::idx<unsigned int>, unsigned int>", "etl_iota", [R(xrng()),
+   E("%s ==> OLD(first.base)[vf_k] == OLD(value) + (unsigned)vf_k" % K),
+   A(xupto("first.base"))],
+   [[A("first.i, value, " + xupto("first.base")), INV("0 <= first.i && first.i <= last.i && value == ENTRY(value) + (unsigned)first.i"),
+     INV("%s ==> first.base[vf_k] == ENTRY(value) + (unsigned)vf_k" % XK_B), XDEC]])
+
+# ---------------------------------------------------------------------------------------------------------------------
+# compacting algorithms (copy_if, remove*, unique*).  The position of a kept element in the output is the NUMBER of kept elements
+# before it, which a quantifier-free contract cannot name; the contracts state what a ghost index can express (range of the
+# result, every output element is a kept one, some kept / some dropped element moves the result, frame, termination) and the
+# bounded stand-ins state the full postcondition (order and exact positions).
+XJ = "vf_j <= vf_n"
+
+
+def compact_clauses(keep, out, src="first.base"):
+    """ensures of a compaction of src[0..n) into out[0..RET.i): keep(e) says whether e is kept"""
+    return [E("RET.base == OLD(%s) && 0 <= RET.i && RET.i <= (long)vf_n" % out),
+            E("(long)vf_j < RET.i ==> %s" % keep("OLD(%s)[vf_j]" % out)),
+            E("(%s && %s) ==> RET.i >= 1" % (K, keep("OLD(%s[vf_k])" % src))),
+            E("(%s && !%s) ==> RET.i <= (long)vf_n - 1" % (K, keep("OLD(%s[vf_k])" % src)))]
+
+
+fn("etl::copy_if<vf::idx<int>, vf::idx<int>, vf::pred3>", "etl_copy_if", [R(xrng()), R(XJ), R(xbuf("dFirst"))] +
+   compact_clauses(P3, "dFirst.base") + [A(xupto("dFirst.base"))],
+   [[A("first.i, dFirst.i, tmp0, " + xupto("dFirst.base")),
+     INV("0 <= first.i && first.i <= last.i && 0 <= dFirst.i && dFirst.i <= first.i"),
+     INV("(long)vf_j < dFirst.i ==> %s" % P3("dFirst.base[vf_j]")),
+     INV("(%s && %s) ==> dFirst.i >= 1" % (XK_B, P3("first.base[vf_k]"))),
+     INV("(%s && !%s) ==> dFirst.i <= first.i - 1" % (XK_B, P3("first.base[vf_k]"))),
+     XDEC]])
+
+
+def xfinder(name, alias, hit):
+    """find_if over the index iterator (called by remove_if); facts for both ghost indices"""
+    fn(name, alias, [R(xrng()), R(XJ),
+       E("RET.base == OLD(first.base) && 0 <= RET.i && RET.i <= (long)vf_n"),
+       E("RET.i == (long)vf_n || %s" % hit("RET.base[RET.i]")),
+       E("(%s && (long)vf_k < RET.i) ==> !%s" % (K, hit("OLD(first.base)[vf_k]"))),
+       E("(vf_j < vf_n && (long)vf_j < RET.i) ==> !%s" % hit("OLD(first.base)[vf_j]")),
+       A()],
+       [[A("first.i"), INV("0 <= first.i && first.i <= last.i"),
+         INV("%s ==> !%s" % (XK_B, hit("first.base[vf_k]"))),
+         INV("(vf_j < vf_n && (long)vf_j < first.i) ==> !%s" % hit("first.base[vf_j]")), XDEC]])
+
+
+def xremove_if(name, alias, hit, contract=True, extra_req=()):
+    cl = []
+    if contract:
+        cl = [R(x) for x in extra_req] + [R(xrng()), R(XJ)] + compact_clauses(lambda e: "(!%s)" % hit(e), "first.base") + [A(xupto("first.base"))]
+    fn(name, alias, cl,
+       [[A("first.i, i.i, tmp1, " + xupto("first.base")),
+         INV("0 <= first.i && first.i <= i.i && i.i < last.i && last.i == (long)vf_n"),
+         INV("(long)vf_j < first.i ==> !%s" % hit("first.base[vf_j]")),
+         INV("(%s && (long)vf_k <= i.i && %s) ==> first.i <= i.i" % (K, hit("ENTRY(first.base[vf_k])"))),
+         INV("(%s && (long)vf_k <= i.i && !%s) ==> first.i >= 1" % (K, hit("ENTRY(first.base[vf_k])"))),
+         INV("(%s && (long)vf_k > i.i) ==> first.base[vf_k] == ENTRY(first.base[vf_k])" % K),
+         DEC("last.i - i.i")]])
+
+
+xfinder("etl::find_if<vf::idx<int>, vf::pred3>", "etl_find_if_x", P3)
+xremove_if("etl::remove_if<vf::idx<int>, vf::pred3>", "etl_remove_if", P3)
+# remove(first, last, value) forwards to remove_if<lambda [&value]> which calls find_if<lambda>: loop contracts on both, calls inlined
+EQV = lambda e: "(%s == *pred.cap0)" % e
+fn("etl::remove<vf::idx<int>, int>", "etl_remove", [R("FRESH(value, sizeof(int))"), R(xrng()), R(XJ)] +
+   compact_clauses(lambda e: "(!(%s == *value))" % e, "first.base") + [A(xupto("first.base"))])
+xremove_if("_ZN3etl9remove_ifIN2vf3idxIiEEZNS_6removeIS3_iEET_S5_S5_RKT0_EUlRKS5_E_EES5_S5_S5_S6_", "etl_remove_if_lambda", EQV, contract=False)
+fn("_ZN3etl7find_ifIN2vf3idxIiEEZNS_6removeIS3_iEET_S5_S5_RKT0_EUlRKS5_E_EES5_S5_S5_S6_", "etl_find_if_lambda", [],
+   [[A("first.i"), INV("0 <= first.i && first.i <= last.i"),
+     INV("%s ==> !%s" % (XK_B, EQV("first.base[vf_k]"))),
+     INV("(vf_j < vf_n && (long)vf_j < first.i) ==> !%s" % EQV("first.base[vf_j]")), XDEC]])
+
+# remove_copy_if / remove_copy: [alg.remove] copies the elements NOT satisfying the predicate to consecutive positions
+RCW = "(vf_k < vf_n && %s) || (vf_j < vf_n && %s)"
+fn("etl::remove_copy_if<vf::idx<int>, vf::idx<int>, vf::pred3>", "etl_remove_copy_if", [R(xrng()), R(XJ), R(xbuf("destination"))] +
+   compact_clauses(lambda e: "(!%s)" % P3(e), "destination.base") +
+   [("KNOWN", "C06_remove_copy_if_holes :: " + RCW % (P3("first.base[vf_k]"), P3("first.base[vf_j]"))), A(xupto("destination.base"))],
+   [[A("first.i, destination.i, " + xupto("destination.base")),
+     INV("0 <= first.i && first.i <= last.i && 0 <= destination.i && destination.i <= first.i"),
+     INV("(long)vf_j < destination.i ==> !%s" % P3("destination.base[vf_j]")),
+     INV("(%s && !%s) ==> destination.i >= 1" % (XK_B, P3("first.base[vf_k]"))),
+     INV("(%s && %s) ==> destination.i <= first.i - 1" % (XK_B, P3("first.base[vf_k]"))),
+     XDEC]])
+fn("etl::remove_copy<vf::idx<int>, vf::idx<int>, int>", "etl_remove_copy", [R("FRESH(value, sizeof(int))"), R(xrng()), R(XJ), R(xbuf("destination"))] +
+   compact_clauses(lambda e: "(!(%s == *value))" % e, "destination.base") +
+   [("KNOWN", "C06_remove_copy_if_holes :: " + RCW % ("first.base[vf_k] == *value", "first.base[vf_j] == *value")), A(xupto("destination.base"))])
+EQP = lambda e: "(%s == *p.cap0)" % e
+fn("_ZN3etl14remove_copy_ifIN2vf3idxIiEES3_ZNS_11remove_copyIS3_S3_iEET0_T_S6_S5_RKT1_EUlRKS6_E_EES5_S6_S6_S5_S7_", "etl_remove_copy_if_lambda", [],
+   [[A("first.i, destination.i, " + xupto("destination.base")),
+     INV("0 <= first.i && first.i <= last.i && 0 <= destination.i && destination.i <= first.i"),
+     INV("(long)vf_j < destination.i ==> !%s" % EQP("destination.base[vf_j]")),
+     INV("(%s && !%s) ==> destination.i >= 1" % (XK_B, EQP("first.base[vf_k]"))),
+     INV("(%s && %s) ==> destination.i <= first.i - 1" % (XK_B, EQP("first.base[vf_k]"))),
+     XDEC]])
+
+# unique / unique_copy (etl::equal_to): no two adjacent elements of the result are equal; the first element stays, the last kept
+# element equals the last element of the input
+fn("etl::unique<vf::idx<int>>", "etl_unique", [R(xrng()), R(XJ),
+   E("RET.base == OLD(first.base) && (vf_n == 0 ? RET.i == 0 : (1 <= RET.i && RET.i <= (long)vf_n))"),
+   E("(long)vf_j + 1 < RET.i ==> OLD(first.base)[vf_j] != OLD(first.base)[vf_j + 1]"),
+   E("(%s && vf_k == 0) ==> OLD(first.base)[0] == OLD(first.base[vf_k])" % K),
+   E("(%s && vf_k == vf_n - 1) ==> OLD(first.base)[RET.i - 1] == OLD(first.base[vf_k])" % K),
+   E("(%s && vf_j == vf_k + 1 && vf_j < vf_n && OLD(first.base[vf_k]) == OLD(first.base[vf_j])) ==> RET.i <= (long)vf_n - 1" % K),
+   A(xupto("first.base"))])
+fn("etl::unique<vf::idx<int>, etl::equal_to<>>", "etl_unique_pred", [],
+   [[A("first.i, result.i, " + xupto("first.base")),
+     INV("0 <= result.i && result.i <= first.i && first.i < last.i && last.i == (long)vf_n"),
+     INV("(long)vf_j + 1 <= result.i ==> first.base[vf_j] != first.base[vf_j + 1]"),
+     INV("first.base[result.i] == first.base[first.i]"),
+     INV("(%s && ((long)vf_k >= first.i || vf_k == 0)) ==> first.base[vf_k] == ENTRY(first.base[vf_k])" % K),
+     INV("(vf_j < vf_n && (long)vf_j >= first.i) ==> first.base[vf_j] == ENTRY(first.base[vf_j])"),
+     INV("(%s && vf_j == vf_k + 1 && (long)vf_j <= first.i && ENTRY(first.base[vf_k]) == ENTRY(first.base[vf_j])) ==> result.i <= first.i - 1" % K),
+     DEC("last.i - first.i")]])
+fn("etl::unique_copy<vf::idx<int>, vf::idx<int>>", "etl_unique_copy", [R(xrng()), R(XJ), R(xbuf("destination")),
+   E("RET.base == OLD(destination.base) && (vf_n == 0 ? RET.i == 0 : (1 <= RET.i && RET.i <= (long)vf_n))"),
+   E("(long)vf_j + 1 < RET.i ==> OLD(destination.base)[vf_j] != OLD(destination.base)[vf_j + 1]"),
+   E("vf_n > 0 ==> (OLD(destination.base)[0] == OLD(first.base)[0] && OLD(destination.base)[RET.i - 1] == OLD(first.base)[vf_n - 1])"),
+   E("(%s && vf_j == vf_k + 1 && vf_j < vf_n && OLD(first.base)[vf_k] == OLD(first.base)[vf_j]) ==> RET.i <= (long)vf_n - 1" % K),
+   A(xupto("destination.base"))])
+fn("etl::unique_copy<vf::idx<int>, vf::idx<int>, etl::equal_to<>>", "etl_unique_copy_pred", [],
+   [[A("first.i, destination.i, " + xupto("destination.base")),
+     INV("0 <= destination.i && destination.i <= first.i && first.i < last.i && last.i == (long)vf_n"),
+     INV("(long)vf_j + 1 <= destination.i ==> destination.base[vf_j] != destination.base[vf_j + 1]"),
+     INV("destination.base[destination.i] == first.base[first.i] && destination.base[0] == first.base[0]"),
+     INV("(%s && vf_j == vf_k + 1 && (long)vf_j <= first.i && first.base[vf_k] == first.base[vf_j]) ==> destination.i <= first.i - 1" % K),
+     DEC("last.i - first.i")]])
+
+# partial_sum (etl::plus) / adjacent_difference (etl::minus) over unsigned: d[0] == a[0], d[k] == d[k-1] + a[k] resp. d[k] == a[k] - a[k-1];
+# ghost vf_j == vf_k - 1.  The contracts take separate buffers (result == first, which the standard permits, made the SAT problem
+# run out of memory; the bounded stand-ins cover it)
+PRV = "(vf_k >= 1 ==> vf_j == vf_k - 1) && vf_j <= vf_n"
+INPL = "vf_ov ? (__CPROVER_pointer_equals(destination.base, first.base) && destination.i == 0) : (%s)" % xbuf("destination")
+fn("etl::partial_sum<vf::idx<unsigned int>, vf::idx<unsigned int>>", "etl_partial_sum", [R(xrng()), R(PRV), R(xbuf("destination")),
+   E(xat("RET", "OLD(destination.base)", "vf_n")),
+   E("(%s && vf_k == 0) ==> OLD(destination.base)[0] == OLD(first.base[vf_k])" % K),
+   E("(%s && vf_k >= 1) ==> OLD(destination.base)[vf_k] == OLD(destination.base)[vf_j] + OLD(first.base[vf_k])" % K),
+   A(xupto("destination.base"))])
+fn("etl::partial_sum<vf::idx<unsigned int>, vf::idx<unsigned int>, etl::plus<>>", "etl_partial_sum_op", [],
+   [[A("first.i, destination.i, sum, " + xupto("destination.base")),
+     INV("0 <= first.i && first.i < last.i && last.i == (long)vf_n && destination.i == first.i && sum == destination.base[first.i]"),
+     INV("(%s && vf_k == 0) ==> destination.base[0] == ENTRY(first.base[vf_k])" % K),
+     INV("(%s && vf_k >= 1 && (long)vf_k <= first.i) ==> destination.base[vf_k] == destination.base[vf_j] + ENTRY(first.base[vf_k])" % K),
+     INV("(%s && (long)vf_k > first.i) ==> first.base[vf_k] == ENTRY(first.base[vf_k])" % K),
+     DEC("last.i - first.i")]])
+fn("etl::adjacent_difference<vf::idx<unsigned int>, vf::idx<unsigned int>>", "etl_adjacent_difference", [R(xrng()), R(PRV), R(xbuf("destination")),
+   E(xat("RET", "OLD(destination.base)", "vf_n")),
+   E("(%s && vf_k == 0) ==> OLD(destination.base)[0] == OLD(first.base[vf_k])" % K),
+   E("(%s && vf_k >= 1) ==> OLD(destination.base)[vf_k] == OLD(first.base[vf_k]) - OLD(first.base[vf_j])" % K),
+   A(xupto("destination.base"))])
+fn("etl::adjacent_difference<vf::idx<unsigned int>, vf::idx<unsigned int>, etl::minus<unsigned int>>", "etl_adjacent_difference_op", [],
+   [[A("first.i, destination.i, acc, " + xupto("destination.base")),
+     INV("0 <= first.i && first.i < last.i && last.i == (long)vf_n && destination.i == first.i"),
+     INV("((long)vf_k == first.i ==> acc == ENTRY(first.base[vf_k])) && ((long)vf_j == first.i ==> acc == ENTRY(first.base[vf_j]))"),
+     INV("(%s && vf_k == 0) ==> destination.base[0] == ENTRY(first.base[vf_k])" % K),
+     INV("(%s && vf_k >= 1 && (long)vf_k <= first.i) ==> destination.base[vf_k] == ENTRY(first.base[vf_k]) - ENTRY(first.base[vf_j])" % K),
+     INV("(%s && (long)vf_k > first.i) ==> first.base[vf_k] == ENTRY(first.base[vf_k])" % K),
+     DEC("last.i - first.i")]])
+
+# ---------------------------------------------------------------------------------------------------------------------
+# non-modifying algorithms with two ranges / two moving pointers (pointer iterators).  A defaulted overload (no comparator) forwards
+# to the comparator overload instantiated with etl::equal_to<> / etl::less<>: the function contract sits on the overload the user calls,
+# the loop contract on the forwarded-to instantiation, whose call is inlined.
+BASE = "(last - vf_n)"                        # loop: the start of the range once `first` has moved (last never moves)
+BOFF = "(OFF(last) - vf_n * %s)" % I
+
+
+def pin(p, lo, hi):
+    """loop: pointer p lies in the range of `last`'s array, element aligned, lo <= OFF(p) <= hi"""
+    return "SAME(%s, last) && (OFF(last) - OFF(%s)) %% %s == 0 && %s <= OFF(%s) && OFF(%s) <= %s" % (p, p, I, lo, p, p, hi)
+
+
+# mismatch (3 iterators): first position where the ranges differ
+fn("etl::mismatch<int *, int *>", "etl_mismatch3", [R(rng("first1", "last1")), R(buf("first2")),
+   E(inr("RET.first", "OLD(first1)")),
+   E("SAME(RET.second, OLD(first2)) && OFF(RET.second) - OFF(OLD(first2)) == OFF(RET.first) - OFF(OLD(first1))"),
+   E("RET.first == OLD(last1) || *RET.first != *RET.second"),
+   E("(%s && %s) ==> OLD(first1)[vf_k] == OLD(first2)[vf_k]" % (K, before("vf_k", "RET.first", "OLD(first1)"))),
+   A()], sig="(int *, int *, int *)")
+fn("etl::mismatch<int *, int *, etl::equal_to<>>", "etl_mismatch3_pred", [],
+   [[A("first1, first2"), INV(linv("first1", "last1")), INV(lock("first2", "first1")),
+     INV("(%s && ENTRY(first1) + vf_k < first1) ==> ENTRY(first1)[vf_k] == ENTRY(first2)[vf_k]" % K),
+     DEC("OFF(last1) - OFF(first1)")]], sig="(int *, int *, int *, etl::equal_to<>)")
+# mismatch (4 iterators): stops at the shorter range
+MINNM = "(vf_n < vf_m ? vf_n : vf_m)"
+fn("etl::mismatch<int *, int *>", "etl_mismatch4", [R(rng("first1", "last1")), R(rng("first2", "last2", "vf_m")),
+   E(inr("RET.first", "OLD(first1)", MINNM)),
+   E("SAME(RET.second, OLD(first2)) && OFF(RET.second) - OFF(OLD(first2)) == OFF(RET.first) - OFF(OLD(first1))"),
+   E("RET.first == OLD(last1) || RET.second == OLD(last2) || *RET.first != *RET.second"),
+   E("(vf_k < %s && %s) ==> OLD(first1)[vf_k] == OLD(first2)[vf_k]" % (MINNM, before("vf_k", "RET.first", "OLD(first1)"))),
+   A()], sig="(int *, int *, int *, int *)")
+fn("etl::mismatch<int *, int *, etl::equal_to<>>", "etl_mismatch4_pred", [],
+   [[A("first1, first2"), INV(linv("first1", "last1")), INV(linv("first2", "last2")), INV(lock("first2", "first1")),
+     INV("(vf_k < %s && ENTRY(first1) + vf_k < first1) ==> ENTRY(first1)[vf_k] == ENTRY(first2)[vf_k]" % MINNM),
+     DEC("OFF(last1) - OFF(first1)")]], sig="(int *, int *, int *, int *, etl::equal_to<>)")
+
+# equal: true => all corresponding elements are equal (the converse needs a witness; bounded stand-in); different lengths => false
+fn("etl::equal<int *, int *>", "etl_equal3", [R(rng("first1", "last1")), R(buf("first2")),
+   E("(RET && %s) ==> OLD(first1)[vf_k] == OLD(first2)[vf_k]" % K),
+   E("vf_n == 0 ==> RET"),
+   E("(%s && vf_k == 0 && OLD(first1)[0] != OLD(first2)[0]) ==> !RET" % K),
+   A()], sig="(int *, int *, int *)")
+EQLOOP = [[A("first1, first2"), INV(linv("first1", "last1")), INV(lock("first2", "first1")),
+     INV("(%s && ENTRY(first1) + vf_k < first1) ==> ENTRY(first1)[vf_k] == ENTRY(first2)[vf_k]" % K),
+     DEC("OFF(last1) - OFF(first1)")]]
+fn("etl::equal<int *, int *, etl::equal_to<>>", "etl_equal3_pred", [], EQLOOP, sig="(int *, int *, int *, etl::equal_to<>)")
+fn("etl::equal<int *, int *>", "etl_equal4", [R(rng("first1", "last1")), R(rng("first2", "last2", "vf_m")),
+   E("vf_n != vf_m ==> !RET"),
+   E("(RET && %s) ==> OLD(first1)[vf_k] == OLD(first2)[vf_k]" % K),
+   E("(vf_n == 0 && vf_m == 0) ==> RET"),
+   A()], sig="(int *, int *, int *, int *)")
+
+# adjacent_find (etl::equal_to): first position i with a[i] == a[i+1], or last
+fn("etl::adjacent_find<int *>", "etl_adjacent_find", [R(rng()),
+   E(inr("RET", OF)),
+   E("RET == OLD(last) || (OFF(RET) + %s < OFF(OLD(last)) && RET[0] == RET[1])" % I),
+   E("(vf_k + 1 < vf_n && %s) ==> OLD(first)[vf_k] != OLD(first)[vf_k + 1]" % before("vf_k", "RET", OF)),
+   A()])
+fn("etl::adjacent_find<int *, etl::equal_to<>>", "etl_adjacent_find_pred", [],
+   [[A("first, next"), INV(pin("first", BOFF, "OFF(last) - %s" % I)), INV("SAME(next, first) && OFF(next) == OFF(first) + %s" % I),
+     INV("(vf_k + 1 < vf_n && %s + vf_k < first) ==> %s[vf_k] != %s[vf_k + 1]" % (BASE, BASE, BASE)),
+     DEC("OFF(last) - OFF(next)")]])
+
+# lexicographical_compare (etl::less): the first differing position decides, a proper prefix is smaller.  "All earlier positions are
+# equal" is a universally quantified hypothesis, which a ghost index cannot supply: the contract states the decidable cases
+# (an empty range; the first elements differ) and safety/termination; the bounded stand-in states the full result.
+fn("etl::lexicographical_compare<int *, int *>", "etl_lexcmp", [R(rng("f1", "l1")), R(rng("f2", "l2", "vf_m")),
+   E("vf_m == 0 ==> !RET"), E("(vf_n == 0 && vf_m > 0) ==> RET"),
+   E("(vf_n > 0 && vf_m > 0 && OLD(f1)[0] < OLD(f2)[0]) ==> RET"),
+   E("(vf_n > 0 && vf_m > 0 && OLD(f2)[0] < OLD(f1)[0]) ==> !RET"),
+   A()])
+fn("etl::lexicographical_compare<int *, int *, etl::less<>>", "etl_lexcmp_pred", [],
+   [[A("f1, f2"), INV(linv("f1", "l1")), INV(linv("f2", "l2")), INV(lock("f2", "f1")),
+     INV("f1 != ENTRY(f1) ==> ENTRY(f1)[0] == ENTRY(f2)[0]"),
+     DEC("OFF(l1) - OFF(f1)")]])
+
+
+# min_element / max_element: the FIRST smallest / largest element w.r.t. comp (less: lt(a,b) = a < b; greater: a > b); last if empty
+def extremum(name_outer, name_inner, alias, var, lt, is_min, sig_outer=None):
+    # min: comp(*first, *smallest) replaces;  max: comp(*largest, *first) replaces
+    notbetter = (lambda e, m: "!%s" % lt(e, m)) if is_min else (lambda e, m: "!%s" % lt(m, e))     # e does not beat m
+    worse = (lambda e, m: lt(m, e)) if is_min else (lambda e, m: lt(e, m))                          # m beats e strictly
+    cl = [R(rng()),
+          E("vf_n == 0 ==> RET == OLD(last)"),
+          E("vf_n > 0 ==> (%s && RET != OLD(last))" % inr("RET", OF)),
+          E("%s ==> %s" % (K, notbetter("OLD(first)[vf_k]", "*RET"))),
+          E("(%s && %s) ==> %s" % (K, before("vf_k", "RET", OF), worse("OLD(first)[vf_k]", "*RET"))),
+          A()]
+    loop = [[A("first, %s" % var), INV(pin("first", "%s + %s" % (BOFF, I), "OFF(last)")),
+             INV("SAME(%s, last) && (OFF(last) - OFF(%s)) %% %s == 0 && %s <= OFF(%s) && OFF(%s) < OFF(first)" % (var, var, I, BOFF, var, var)),
+             INV("(%s && %s + vf_k < first) ==> %s" % (K, BASE, notbetter("%s[vf_k]" % BASE, "*" + var))),
+             INV("(%s && %s + vf_k < %s) ==> %s" % (K, BASE, var, worse("%s[vf_k]" % BASE, "*" + var))),
+             DECR]]
+    if name_inner:
+        fn(name_outer, alias, cl)
+        fn(name_inner, alias + "_pred", [], loop)
+    else:
+        fn(name_outer, alias, cl, loop, sig=sig_outer)
+
+
+LT = lambda a, b: "(%s < %s)" % (a, b)
+GT = lambda a, b: "(%s > %s)" % (a, b)
+extremum("etl::min_element<int *>", "etl::min_element<int *, etl::less<>>", "etl_min_element", "smallest", LT, True)
+extremum("etl::max_element<int *>", "etl::max_element<int *, etl::less<>>", "etl_max_element", "largest", LT, False)
+extremum("etl::max_element<int *, etl::greater<>>", None, "etl_max_element_gt", "largest", GT, False)
+
+
+# is_sorted_until / is_sorted: first position i with comp(a[i], a[i-1]), or last; adjacent pairs before it are in order
+def sorted_until(name_outer, name_inner, alias, lt):
+    cl = [R(rng()),
+          E(inr("RET", OF)), E("vf_n > 0 ==> RET != OLD(first)"),
+          E("RET == OLD(last) || %s" % lt("RET[0]", "RET[-1]")),
+          E("(vf_k + 1 < vf_n && OFF(OLD(first)) + (vf_k + 1) * %s < OFF(RET)) ==> !%s" % (I, lt("OLD(first)[vf_k + 1]", "OLD(first)[vf_k]"))),
+          A()]
+    loop = [[A("first, next"), INV(pin("first", BOFF, "OFF(last) - %s" % I)), INV("next == first"),
+             INV("(vf_k + 1 < vf_n && %s + (vf_k + 1) <= first) ==> !%s" % (BASE, lt("%s[vf_k + 1]" % BASE, "%s[vf_k]" % BASE))),
+             DEC("OFF(last) - OFF(next)")]]
+    if name_inner:
+        fn(name_outer, alias, cl)
+        fn(name_inner, alias + "_pred", [], loop)
+    else:
+        fn(name_outer, alias, cl, loop)
+
+
+sorted_until("etl::is_sorted_until<int *>", "etl::is_sorted_until<int *, etl::less<>>", "etl_is_sorted_until", LT)
+sorted_until("etl::is_sorted_until<int *, etl::greater<>>", None, "etl_is_sorted_until_gt", GT)
+fn("etl::is_sorted<int *>", "etl_is_sorted", [R(rng()),
+   E("(RET && vf_k + 1 < vf_n) ==> !(OLD(first)[vf_k + 1] < OLD(first)[vf_k])"),
+   E("vf_n <= 1 ==> RET"),
+   E("(vf_n >= 2 && OLD(first)[1] < OLD(first)[0]) ==> !RET"),
+   A()])
+
+# is_partitioned: true => no element satisfying p follows one that does not (ghosts vf_j < vf_k)
+fn("etl::is_partitioned<int *, vf::pred3>", "etl_is_partitioned", [R(rng()),
+   E("(RET && vf_j < vf_k && vf_k < vf_n && %s) ==> %s" % (P3("OLD(first)[vf_k]"), P3("OLD(first)[vf_j]"))),
+   E("vf_n <= 1 ==> RET"),
+   A()],
+   [[A("first"), INV(linv()),
+     INV("%s ==> %s" % (KB, P3(EF + "[vf_k]"))),
+     INV("(vf_j < vf_n && %s + vf_j < first) ==> %s" % (EF, P3(EF + "[vf_j]"))), DECR],
+    [A("first"), INV(linv()), INV(pin("first", BOFF, "OFF(last)")),
+     INV("(%s && %s + vf_k < ENTRY(first)) ==> %s" % (K, BASE, P3(BASE + "[vf_k]"))),
+     INV("(vf_j < vf_n && %s + vf_j < ENTRY(first)) ==> %s" % (BASE, P3(BASE + "[vf_j]"))),
+     INV("(%s && %s + vf_k >= ENTRY(first) && %s + vf_k < first) ==> !%s" % (K, BASE, BASE, P3(BASE + "[vf_k]"))),
+     DECR]])
+
+# partition_point: first element not satisfying p; given that the range is partitioned (instance for the ghosts vf_j < vf_k), no
+# element from the result on satisfies p
+fn("etl::partition_point<int *, vf::pred3>", "etl_partition_point", [R(rng()),
+   R("(vf_j < vf_k && vf_k < vf_n && %s) ==> %s" % (P3("first[vf_k]"), P3("first[vf_j]"))),
+   E(inr("RET", OF)),
+   E("RET == OLD(last) || !%s" % P3("*RET")),
+   E("(%s && %s) ==> %s" % (K, before("vf_k", "RET", OF), P3("OLD(first)[vf_k]"))),
+   E("(vf_j < vf_k && vf_k < vf_n && OFF(RET) == OFF(OLD(first)) + vf_j * %s) ==> !%s" % (I, P3("OLD(first)[vf_k]"))),
+   A()],
+   [[A("first"), INV(linv()), INV("%s ==> %s" % (KB, P3(EF + "[vf_k]"))), DECR]])
+
+# clamp / min / max / minmax (loop free): the returned reference is one of the arguments, chosen as [alg.clamp] / [alg.min.max] say
+fn("etl::clamp<int>", "etl_clamp", [R("FRESH(v, sizeof(int)) && FRESH(lo, sizeof(int)) && FRESH(hi, sizeof(int)) && !(*hi < *lo)"),
+   E("RET == (*v < *lo ? lo : *hi < *v ? hi : v)"), A()])
+fn("etl::min<int>", "etl_min", [R("FRESH(a, sizeof(int)) && FRESH(b, sizeof(int))"), E("RET == (*b < *a ? b : a)"), A()])
+fn("etl::max<int>", "etl_max", [R("FRESH(a, sizeof(int)) && FRESH(b, sizeof(int))"), E("RET == (*a < *b ? b : a)"), A()])
+fn("etl::minmax<int>", "etl_minmax", [R("FRESH(a, sizeof(int)) && FRESH(b, sizeof(int))"),
+   E("RET.first == (*b < *a ? b : a) && RET.second == (*b < *a ? a : b)"), A()])
 # ===== END CONTRACTS =====
 
 hdr = ["# generated by fam/algo/mkspec.py -- edit that file and re-run it",
-       "GHOST unsigned long vf_n, vf_m, vf_k, vf_j, vf_p, vf_q, vf_ov;"]
+       "GHOST unsigned long vf_n, vf_m, vf_k, vf_j, vf_p, vf_q, vf_ov, vf_sel;"]
 open(os.path.join(os.path.dirname(os.path.abspath(__file__)), "contracts.spec"), "w").write("\n".join(hdr + OUT) + "\n")
